@@ -46,9 +46,12 @@ pub fn extract_z_and_alpha(annotations: &[&str]) -> anyhow::Result<ZAlpha> {
 pub fn extract_annotations(
     annotations: &[&str],
     prefix: &str,
-    kind: &str,
+    kinds: &[&str],
 ) -> anyhow::Result<Vec<BigUint>> {
-    let pattern = format!(r"P->V\[(\d+):(\d+)\]: /cpu air/{prefix}: .*{kind}\((.+)\)");
+    // All the kinds are matched in one pass, so that values of different kinds keep the order in
+    // which they appear in the stream.
+    let kind = kinds.join("|");
+    let pattern = format!(r"P->V\[(\d+):(\d+)\]: /cpu air/{prefix}: .*(?:{kind})\((.+)\)");
     let re = Regex::new(&pattern).unwrap();
     let mut res = Vec::new();
 
